@@ -43,7 +43,9 @@ def generate(unit, repo='/repo', import_mode=False, strip_body=(), extra_consts=
             rs, re_, rts = X.locate_fn(rsrc, opts.get('real', path))
         except (X.LostAnchor, OSError) as e:
             g.problems.append({'kind': 'lost-anchor', 'where': 'repo', 'fn': path, 'detail': str(e)}); continue
+        for r_ in unit.get('expr_rewrites', []): r_.pop('_dropped', None)
         cur = X.real_pipeline(rts, unit, path)
+        dropped = [d_ for r_ in unit.get('expr_rewrites', []) for d_ in r_.get('_dropped', [])]
         try:
             os_, oe, ots = X.locate_fn(ov, opts.get('overlay', path))
         except X.LostAnchor as e:
@@ -74,7 +76,7 @@ def generate(unit, repo='/repo', import_mode=False, strip_body=(), extra_consts=
         text, origin = X.emit_with_lines(toks)
         if stripped: text = '#[verifier::exec_allows_no_decreases_clause] ' + text
         g.report.append({'fn': path, 'file': rel, 'line': rts[0].line, 'real_tokens': len(cur), 'overlay_tokens': len(ots),
-                         'ghost_tokens': sum(len(r) for r in G), 'erasure_exact': exact, 'edits': edits, 'renames': renames, 'body_ghost_stripped': stripped,
+                         'ghost_tokens': sum(len(r) for r in G), 'erasure_exact': exact, 'edits': edits, 'renames': renames, 'body_ghost_stripped': stripped, 'dropped_arithmetic': dropped,
                          'snapshot_sha': hashlib.sha1(' '.join(X.strs(E)).encode()).hexdigest()[:12]})
         pieces.append((os_, oe, text, origin, path, rel))
     g.opaque = []
@@ -396,6 +398,8 @@ def run_unit(unit, repo='/repo', canary=True, keep=False, rlimit=None, workdir=N
         res['status'] = 'undecided'; res['problems'] = g.problems; res['wall_s'] = time.time() - t0; return res
     for r in g.report:
         r['changed'] = bool(r['edits'])
+        if r.get('dropped_arithmetic'):      # none on the pinned tree (measured): any occurrence comes from changed code
+            res['problems'].append({'kind': 'dropped-expression', 'fn': r['fn'], 'detail': 'the rewrite table drops an expression with arithmetic (e.g. a format argument) - not checked: %s' % '; '.join(r['dropped_arithmetic'][:3])})
     key = hashlib.sha1((g.text + '|canary=%s|rlimit=%s|%s' % (canary, rlimit or unit.get('rlimit'), TOOLS_SHA)).encode()).hexdigest()
     cdir = os.path.join(ROOT, '.cache'); cpath_ = os.path.join(cdir, '%s_%s.json' % (unit['name'], key))
     if os.environ.get('VX_NO_CACHE') != '1' and os.path.exists(cpath_) and not keep:
@@ -528,6 +532,7 @@ def run_unit(unit, repo='/repo', canary=True, keep=False, rlimit=None, workdir=N
         if keep: res['kept'] = d
     finally:
         if not keep and not workdir: shutil.rmtree(d, ignore_errors=True)
+    if res['status'] == 'ok' and any(p_['kind'] == 'dropped-expression' for p_ in res['problems']): res['status'] = 'undecided'
     res['wall_s'] = round(time.time() - t0, 2)
     res['gen_sha'] = key
     if res['status'] in ('ok', 'failed') and not any(p_['kind'] in ('timeout', 'tool-error') for p_ in res['problems']):
